@@ -28,6 +28,17 @@ def _av(n, wrap, flush, table, avail, cls, witness=False, core=False):
                  weight=(8.0 if table else 1.0))
 
 
+def asmfinish_query(n, ao, cls=8, hist=0, pend=3, core=False, witness=False, timeout=900):
+    """isal_deflate_finish_01 (assembly) lifted to C at check time: memory safety and accounting on n symbolic input bytes."""
+    p = dict(harness="harness/C10/h_asmfinish.c", units=D.UNITS + ["igzip/igzip_base.c"], vunits=D.VUNITS,
+             defines=["_X86INTRIN_H_INCLUDED=1", "_IMMINTRIN_H_INCLUDED=1"], hdefines=["N=%d" % n, "AVAIL_OUT=%d" % ao, "PEND=%d" % pend, "CLS=%d" % cls, "HIST=%d" % hist],
+             instrument=[["@gen", "harness.inflate_common.lift_gen:gen_asmfinish", "lift_asmfinish.c", {}]],
+             unwind=n + 4, unwindset=["LIFT_RD.0:9", "LIFT_WR.0:9", "harness.0:%d" % (n + 2), "wmemset.0:4100", "lift_ctz.0:65", "lift_clz.0:65",
+                        "lift_popcnt.0:65", "lift_crc32c.0:65", "lift_rep_movs.0:260"],
+             flags=["--slice-formula"], witness=witness, timeout=timeout, mem_gb=16)
+    return Query("x86lift/isal_deflate_finish_01/n%d_ao%d_c%d_h%d" % (n, ao, cls, hist), D.R, p, core=core, family="x86lift/isal_deflate_finish_01", weight=4 ** min(n, 6))
+
+
 def plan(tier, ctx):
     quick = tier == "quick"
     qs = []
@@ -92,6 +103,12 @@ def plan(tier, ctx):
         for i in range(0, len(cases), 18):
             qs.append(Query("x86/icf_%s/c%d" % (var, i // 18), "harness.C10.icf_x86:icf_query", dict(variant=var, cases=cases[i:i + 18]),
                             core=(i == 0), family="x86/encode_deflate_icf_" + var, weight=30))
+    # ---------------------------------------------------------------- engine C (lead): the assembly finish kernel lifted to C
+    fin = [(4, 3), (5, 1), (6, 7), (3, 64), (1, 64), (2, 9)] if quick else [(n, ao) for n in (1, 2, 3) for ao in (0, 1, 3, 7, 8, 9, 10, 64)] + [(n, ao) for n in (4, 5, 6, 8, 16) for ao in (0, 1, 3, 7)]
+    for (n, ao) in fin:
+        for cls in (8, 9):
+            for hist in (0, 1):
+                qs.append(asmfinish_query(n, ao, cls, hist, core=False, witness=((n, ao, cls, hist) == (4, 64, 8, 0))))
     return Plan("C10", "model_checking", qs,
                 functions_encoded=["isal_deflate_stateless", "isal_deflate_int_stateless", "write_stream_header_stateless",
                                    "write_deflate_header_stateless", "write_stored_block", "write_type0_header", "write_trailer",
